@@ -24,7 +24,7 @@ impl_io_uring_read!(IoUringPreadvSyscall, PreadvSyscall,
     preadv(fd: c_int, iov: *const iovec, iovcnt: c_int, offset: off_t) -> ssize_t
 );
 
-impl_nio_read_iovec!(NioPreadvSyscall, PreadvSyscall,
+impl_nio_read!(NioPreadvSyscall, PreadvSyscall,
     preadv(fd: c_int, iov: *const iovec, iovcnt: c_int, offset: off_t) -> ssize_t
 );
 
